@@ -1146,6 +1146,29 @@ func init() {
 			}
 		}
 
+		// ---- tiny individuals, more than 2 x 1000 of them matched by pointer: the same tree on both
+		// sides fills both 1000-slot buffers of the comparison pipeline and its workers (threshold 2001 +
+		// jobs). A hang ends in the large-run time limit: "ends in a timeout".
+		{
+			sizes := []int{2002}
+			if !c.Quick() {
+				sizes = append(sizes, 2100, 2001, 3000)
+			}
+			for _, n := range sizes {
+				file := filepath.Join(tmp, fmt.Sprintf("tiny-%d.ged", n))
+				os.WriteFile(file, []byte(c14Sized(n)), 0o644)
+				label := fmt.Sprintf("large file of tiny individuals: %d individuals, %d families, the same tree on both sides", n, n/2)
+				regen := fmt.Sprintf("(generated: %d individuals `0 @I<i>@ INDI / 1 NAME G<i> /S<i%%7>/ / 1 BIRT / 2 DATE 1800+i%%150`, %d families HUSB 2f-1, WIFE 2f, CHIL 2f%%n+1)", n, n/2)
+				c.Count(label)
+				o := filepath.Join(tmp, fmt.Sprintf("tiny-%d.html", n))
+				runs = append(runs,
+					&c14Run{text: regen, kind: "diff", outDir: o, limit: 300 * time.Second, label: label,
+						args: []string{"diff", "-left-gedcom", file, "-right-gedcom", file, "-output", o, "-show", "only-matches", "-jobs", "2"}},
+					&c14Run{text: regen, kind: "query", limit: 300 * time.Second, label: label + ", merged",
+						args: []string{"query", "-gedcom", file, "-gedcom", file, "-format", "gedcom", "MergeDocumentsAndIndividuals(Document1, Document2)"}})
+			}
+		}
+
 		// ---- the boundary corpus: byte boundaries of references, counts, sizes x jobs, flags, sinks
 		c14BoundaryRuns(c, tmp, &runs)
 
